@@ -36,7 +36,8 @@ func tpID(n parsley.Node) int {
 	case ast.NodeList:
 		return 0
 	case ast.EmptyNode:
-		return int(v.Pos()) - 100000
+		_ = v
+		return -1 // an empty node is a value (its position): it has no identity of its own
 	}
 	id, err := strconv.Atoi(n.Token()[1:])
 	if err != nil {
@@ -55,6 +56,19 @@ func schemaStr(n parsley.Node) string {
 // the four interpreter capabilities
 type plainI struct{ r *tpRec }
 type checkerI struct{ plainI }
+
+// keepI: a transformer that returns the very node it was given
+type keepI struct{ plainI }
+
+func (k keepI) TransformNode(ctx interface{}, n parsley.Node) (parsley.Node, parsley.Error) {
+	id := tpID(n)
+	k.r.log = append(k.r.log, id)
+	if id == k.r.failAt {
+		return nil, parsley.NewErrorf(n.Pos(), "transform failed at %d", id)
+	}
+	return n, nil
+}
+
 type transformerI struct{ plainI }
 type bothI struct{ plainI }
 
@@ -113,22 +127,26 @@ func (b bothI) TransformNode(ctx interface{}, n parsley.Node) (parsley.Node, par
 
 func tpBuild(tree []tpNode, rec *tpRec) (root parsley.Node, nodes []parsley.Node) {
 	nodes = make([]parsley.Node, len(tree))
+	cur := parsley.Pos(1) // positions as a parser would assign them: terminals are one byte wide, everything else is zero-width
 	var mk func(i int) parsley.Node
 	mk = func(i int) parsley.Node {
 		nd := tree[i-1]
-		pos := parsley.Pos(10 * i)
+		pos := cur
 		var n parsley.Node
 		switch nd.K {
 		case "term":
 			n = ast.NewTerminalNode("t", "t"+strconv.Itoa(i), i, pos, pos+1)
+			cur++
 		case "empty":
-			n = ast.EmptyNode(100000 + i)
+			n = ast.EmptyNode(pos)
 		default:
 			var in parsley.Interpreter
 			base := plainI{rec}
 			switch nd.Cap {
 			case "none":
 				in = nil
+			case "keep":
+				in = keepI{base}
 			case "checker":
 				in = checkerI{base}
 			case "transformer":
@@ -158,21 +176,25 @@ func tpBuild(tree []tpNode, rec *tpRec) (root parsley.Node, nodes []parsley.Node
 // tpBuild2: like tpBuild, but transformers and checkers record into different logs (parsley.Parse runs both passes)
 func tpBuild2(tree []tpNode, trec, crec *tpRec) (parsley.Node, []parsley.Node) {
 	nodes := make([]parsley.Node, len(tree))
+	cur := parsley.Pos(1)
 	var mk func(i int) parsley.Node
 	mk = func(i int) parsley.Node {
 		nd := tree[i-1]
-		pos := parsley.Pos(10 * i)
+		pos := cur
 		var n parsley.Node
 		switch nd.K {
 		case "term":
 			n = ast.NewTerminalNode("t", "t"+strconv.Itoa(i), i, pos, pos+1)
+			cur++
 		case "empty":
-			n = ast.EmptyNode(100000 + i)
+			n = ast.EmptyNode(pos)
 		default:
 			var in parsley.Interpreter
 			switch nd.Cap {
 			case "none":
 				in = nil
+			case "keep":
+				in = keepI{plainI{trec}}
 			case "checker":
 				in = checkerI{plainI{crec}}
 			case "transformer":
@@ -426,7 +448,7 @@ func treepassMain(mode string, a args) {
 		}
 		r := rand.New(rand.NewSource(int64(a.num("seed", 1))))
 		n, maxn := a.num("n", 60), a.num("maxnodes", 200)
-		caps := []string{"plain", "checker", "transformer", "both", "none"}
+		caps := []string{"plain", "checker", "transformer", "both", "none", "keep"}
 		for c := 0; c < n; c++ {
 			sz := 1 + r.Intn(maxn)
 			tree := make([]tpNode, sz)
